@@ -1,8 +1,8 @@
 """C10 - a merchant appears in a view exactly when the view's filter is true of it.
 
-Exhaustive: every views file made of 1..K views over a 24-filter alphabet (documented primitives, aggregates,
+Exhaustive: every views file made of 1..K views over a 28-filter alphabet (documented primitives, aggregates,
 by(month|year|week|day), period(), max_val, a global variable, a view-local variable shadowing a global, an
-unevaluable filter, `true`) x every set of 1..3 merchants over 13 payment histories (single payment, same
+unevaluable filter, `true`) x every set of 1..3 merchants over 14 payment histories (single payment, same
 month different days, same day, equal months, varied months, refund, same month number in two years, income /
 transfer / investment tags in three letter cases, a recurring-tagged one, a zero-total one, a net-refund one with negative mean), driven through the
 real chain analyze_transactions -> classify_by_sections -> compute_section_totals.  Membership is compared with
@@ -20,8 +20,8 @@ from mc.ref import money
 
 PROPERTY = "C10"
 LEVEL = "exploration"
-RULE = ("cases = every sequence of 1..K distinct views (K=2 quick; thorough: K=2 over all 23 filters plus K=3 over a 10-filter sub-alphabet) x every set of 1..3 "
-        "merchants over 13 payment histories; each case runs the real analyse/classify chain once and judges every (view, merchant) pair. "
+RULE = ("cases = every sequence of 1..K distinct views (K=2 quick; thorough: K=2 over all 28 filters plus K=3 over a 10-filter sub-alphabet) x every set of 1..3 "
+        "merchants over 14 payment histories; each case runs the real analyse/classify chain once and judges every (view, merchant) pair. "
         "non-trivial = (view, merchant) pairs whose filter is evaluable and that are members of some but not all views of the file; cases distinct by construction")
 ASSUMPTIONS = ["payments / total / months / cv / by() are recomputed from the raw transactions with their real dates; cv is the population coefficient of variation of monthly totals",
                "not judged: cv when the mean monthly total is 0; by(\"week\") across a year boundary (%W vs ISO); stddev(); two views with the same name",
@@ -42,6 +42,8 @@ HIST = [
     ("Club", "food", "Grocery", ["recurring", "b"], [(D(2025, 1, 7), 20.0), (D(2025, 2, 7), 20.0), (D(2025, 3, 7), 22.0)]),
     ("Zero", "Bills", "Power", [], [(D(2025, 1, 9), 50.0), (D(2025, 2, 9), -50.0)]),
     ("NetRefund", "Shopping", "Returns", [], [(D(2025, 1, 9), -30.0), (D(2025, 2, 9), -10.0)]),     # negative mean: cv = -0.5
+    # a payment on 29 February (its day must stay the 29th), one on the 15th of the same month, four months in all
+    ("Leap", "Food", "Cafe", [], [(D(2024, 2, 29), 120.0), (D(2024, 2, 15), 15.0), (D(2024, 3, 1), 5.0), (D(2024, 4, 2), 5.0), (D(2024, 5, 3), 5.0)]),
 ]
 
 PREAMBLE = "thresh = 100\nbig = total > thresh\n\n"
@@ -53,6 +55,9 @@ FILTERS = [  # (name, local variable lines, filter)
     ("OneYear", [], 'count(sum(by("year"))) == 1'), ("AllMonths", [], 'months >= period("month")'), ("HalfPeriod", [], 'months >= max_val(2, period("month") * 0.5)'),
     ("GlobalVar", [], "big"), ("LocalShadow", ["thresh = 1000"], "total > thresh"), ("Broken", [], 'total > "x"'), ("Everything", [], "true"),
     ("UsesGlobal", [], "total > thresh and months >= 1"),
+    # chained comparisons: a < b < c means (a < b) and (b < c)
+    ("ChainTotal", [], "50 < total < 250"), ("ChainDown", [], "thresh >= total > 20"), ("ChainMonths", [], "2 <= months <= 3"),
+    ("PeakDay", [], 'max(sum(by("day"))) > 100'),
 ]
 SUB10 = [0, 2, 4, 7, 13, 14, 17, 19, 20, 21]
 
